@@ -13,6 +13,9 @@
       [Query] or [Mutation] (root fields serial), [fuel] bounds the idle rounds and [jfuel] the
       depth of the JSON projection; the outcome is [Done resp], [Stuck] (an idle round that
       fulfils nothing: the real executor spins for ever) or [OutOfFuel];
+      a promise whose tag is at least [pre_base] (2^32) is *prefilled*: its resolver sends the
+      result before it returns the channel, so it needs no idle round — every theorem below
+      quantifies over such promises too (they are just plans);
     - [fair sigma]: every idle round fulfils at least one outstanding promise;
     - [run_sync root] (Fut/ExecSync.v) is the reference: GraphQL's ExecuteSelectionSet /
       CompleteValue with every resolver answering directly; no futures, no heap;
@@ -26,7 +29,7 @@
 From Coq Require Import List NArith ZArith Bool.
 From ApiFu Require Import Base.Sexp Fut.Plan Fut.Future Fut.ExecAsync Fut.ExecSync Fut.Denote Fut.SubPerm
      Fut.Live Fut.AsyncWrap Fut.AsyncRun Fut.FutSpec Fut.VisibleProofs Fut.SyncMust Fut.FutProofs
-     Fut.BridgeC01 Fut.BridgeProofs Fut.BridgeNulls Fut.BridgeCompose.
+     Fut.BridgeC01 Fut.BridgeProofs Fut.BridgeNulls Fut.BridgeCands Fut.BridgeCompose.
 From ApiFu Require Exe.ExecData Exe.ExecSpec Exe.ExecModel Exe.ExecHyps.
 Import ListNotations.
 
@@ -223,6 +226,33 @@ Theorem C02_every_schedule_explains_reference_nulls_partial :
             Forall (fun x => exists e, In e (r_errors r) /\ lands e x) (visible_nulls root).
 Proof. exact schedule_yields_reference_nulls. Qed.
 
+(** Round 4: the candidates, too.  [null_sites] erases the source locations of C01's errors,
+    [plan_sites] the error kinds of this plan's; what is left of a failure-null is its response path
+    and the response paths of the errors that may explain it.  For a typed document (C01's [doc_ok],
+    which also keeps CollectFields from running out of fuel) the two readings coincide, so
+    [conforms] — every visible failure-null gets exactly one error, one of its candidates — says
+    of every schedule what C01_exec_errors_complete says of the synchronous executor: each
+    failure-null of the reference is explained by one of the errors the reference admits there.
+    What remains outside: source locations (C01's), messages, and leaf values cross as [code j]. *)
+Theorem C02_bridge_candidates : forall code S D E fuel n W,
+  ExecSpec.doc_ok S D E fuel n = true ->
+  null_sites (ExecSpec.failure_nulls (ExecSpec.exec_spec S D E fuel W)) =
+  plan_sites (visible_nulls (plan_of code S D E fuel W)).
+Proof. exact bridge_candidates. Qed.
+
+Theorem C02_every_schedule_yields_ExecuteRequest_response :
+  forall (code : ExecData.json -> Z) S D E fuel n W d errs md root sigma fuelr jfuel,
+  ExecHyps.type_names_okb S = true -> ExecHyps.doc_positions_okb D = true ->
+  ExecSpec.doc_ok S D E fuel n = true ->
+  ExecModel.run ExecModel.fixed S D E fuel W = ExecModel.Done d errs ->
+  same_outcomes root (plan_of code S D E fuel W) ->
+  fair sigma -> count_async root <= fuelr -> resp_depth root < jfuel ->
+  exists r, run fixed_flags sigma md fuelr jfuel root = Done r /\
+            r_data r = tr_data code d /\
+            null_sites (ExecSpec.failure_nulls (ExecSpec.exec_spec S D E fuel W)) = plan_sites (visible_nulls root) /\
+            conforms root (r_data r) (r_errors r).
+Proof. exact schedule_yields_reference_response. Qed.
+
 (** ** supporting statements *)
 
 (** [conforms] does not see which resolvers are asynchronous. *)
@@ -324,6 +354,8 @@ Print Assumptions C02_bridge_data.
 Print Assumptions C02_every_schedule_yields_ExecuteRequest_data_partial.
 Print Assumptions C02_bridge_null_paths.
 Print Assumptions C02_every_schedule_explains_reference_nulls_partial.
+Print Assumptions C02_bridge_candidates.
+Print Assumptions C02_every_schedule_yields_ExecuteRequest_response.
 Print Assumptions C02_conforms_tag_blind.
 Print Assumptions C02_visible_nulls_agree.
 Print Assumptions C02_conforms_by_reading.
